@@ -452,7 +452,7 @@ def range_for(em, n, ind, fn):
     s = p + '{\n'
     s += p + '  struct M_vec_voidp *__%s = &(%s);\n' % (rn, em.E(rinit))
     s += p + '  for (unsigned long %s = 0; %s < __%s->len; %s++)\n' % (iv, iv, rn, iv)
-    s += em.loop_contract(fn)
+    s += em.loop_contract(fn, iv, '__' + rn)
     s += p + '  {\n'
     lvt = em.ctype_of(qt(loopvar))
     if em.is_ref_type(qt(loopvar)):
